@@ -55,11 +55,13 @@ ASSUMPTIONS = [
     "set iteration order of `allowed_modes - regrefs` is reproduced by evaluating the same expression in the harness (modelled as an explicit enumeration argument, theorem quantifies over all duplicate-free enumerations)",
     "Borealis phase pipeline is proved over exact rationals for every positive rational pi; binary64 rounding is covered only by the correspondence run",
 ]
-MANIFEST_TEXT = ("full theorems about the models: C12_validate_sound (+ unknown_parameter, invalid_value), C12_counts, C12_s2_merge (all multiplicities, "
-                 "all set enumerations, under the at-most-one-repeated-pair hypothesis; refuted without it: C12_s2_merge_refuted_indexerror / _silent), "
-                 "C12_s2_merge_one_step, C12_borealis_range (congruence modulo pi; modulo 2 pi refuted: C12_borealis_pi_shift_refuted), C12_borealis_insert. "
-                 "Not proved (search only): C12_xunitary_shape corollary chain (mesh re-synthesis reproduces U), Xcov/Takagi statistics preservation, "
-                 "networkx isomorphism / blackbird template matching")
+MANIFEST_TEXT = ("full theorems about the models: C12_validate_sound (+ unknown_parameter, invalid_value), C12_counts, C12_s2_merge (every multiplicity on "
+                 "every pair, every set enumeration, dagger signs; no extra hypothesis), C12_s2_merge_one_step, C12_borealis_range (both variants of the loop, "
+                 "congruence modulo pi; modulo 2 pi refuted: C12_borealis_pi_shift_refuted), C12_borealis_insert, C12_borealis_user_offsets_complete (repaired "
+                 "variant; refuted for the current one), C12_xunitary_shape_chain (conditional on the mesh implementing its unitary: C02/C17). Refutations "
+                 "C12_s2_merge_old_refuted_* concern the explicitly named pre-fix definitions only. Not proved (search only): that Interferometer._decompose is "
+                 "such a mesh and that GaussianUnitary's U is the net unitary (C11), Xcov/Takagi statistics preservation, networkx isomorphism / blackbird "
+                 "template matching")
 
 PI = math.pi
 X_COMPILERS = ["Xstrict", "Xunitary", "Xcov"]
@@ -506,7 +508,7 @@ def check_x_case(ctx, tags, spec, dev_spec, compiler, K):
         return kind
     if kind.startswith("raise:"):
         ndup, _ = n_dup_pairs(spec)
-        site = "s2-merge" if (compiler == "Xunitary" and ndup >= 2 and kind == "raise:IndexError") else "compile"
+        site = "s2-merge" if (compiler == "Xunitary" and ndup >= 2 and kind == "raise:IndexError") else "compile"   # (fixed by 40078be)
         ctx.counterexample("%s:%s:%s" % (lc, site, kind[6:]),
                            "%s raised %s instead of a CircuitError / ValueError" % (compiler, res), data)
         return kind
@@ -525,16 +527,13 @@ def check_x_case(ctx, tags, spec, dev_spec, compiler, K):
     else:
         bad = conform(ccmds, x_layout_cmds(N), gp, n)
     seen = set()
-    lost = compiler == "Xunitary" and s2_lost(spec, ccmds)
     for k, msg in bad:
-        if lost and k in ("wire", "gate", "length", "shared", "range"):
-            sig = "xunitary:s2-merge:squeezer-lost"      # the recorded merge defect shows up as a non-conforming circuit too
-        elif k == "dagger":
+        if k == "dagger":
             sig = "x:dagger-survives-compile"
-        elif compiler == "Xstrict" and gp is None:
-            sig = "xstrict:layout-unchecked"
-        elif k == "fixed":
-            sig = "x:fixed-parameter-unchecked"
+        elif compiler == "Xstrict" and gp is None and default != "Xstrict":
+            sig = "xstrict:layout-unchecked"             # recorded: nothing checks the topology in this configuration
+        elif k == "fixed" and not (compiler == "Xstrict" and default == "Xstrict"):
+            sig = "x:fixed-parameter-unchecked"          # recorded: Xstrict as the default compiler is the only checked case
         else:
             sig = "%s:layout:%s" % (lc, k)
         if sig in seen:
@@ -567,25 +566,23 @@ def states_equal(a, b, tol=1e-7):
 
 
 def s2_lost(spec, ccmds):
-    """repeated squeezers on >= 2 pairs and the compiled S2gates are not one per pair with the summed r"""
+    """the compiled S2gates are not one per pair with the signed sum of the source r's"""
     N = spec["n"] // 2
     want = {}
     for c in spec["cmds"]:
         if c[0] == "S2gate":
-            want[tuple(c[2])] = want.get(tuple(c[2]), 0.0) + c[1][0]
+            want[tuple(c[2])] = want.get(tuple(c[2]), 0.0) + (-c[1][0] if c[3] else c[1][0])
     got = {}
     for c in ccmds:
         if c[0] == "S2gate":
-            got.setdefault(tuple(c[2]), []).append(c[1][0])
-    ndup, _ = n_dup_pairs(spec)
-    lost = any(len(got.get((i, i + N), [])) != 1 or abs(got[(i, i + N)][0] - want.get((i, i + N), 0.0)) > 1e-9 for i in range(N))
-    return bool(lost and ndup >= 2)
+            got.setdefault(tuple(c[2]), []).append(-c[1][0] if c[3] else c[1][0])
+    return any(len(got.get((i, i + N), [])) != 1 or abs(got[(i, i + N)][0] - want.get((i, i + N), 0.0)) > 1e-9 for i in range(N))
 
 
 def classify_state_change(spec, compiler, ccmds, s_cmp, K):
     """name the specific cause when it is one of the recorded ones (and only then)"""
     if compiler == "Xunitary" and s2_lost(spec, ccmds):
-        return "s2-merge:squeezer-lost"
+        return "s2-stage:wrong-squeezers"
     if has_dagger(spec):
         # is the compiled state exactly what the source would give with the daggers of some gates dropped?
         cnt = {}
@@ -608,7 +605,7 @@ def classify_state_change(spec, compiler, ccmds, s_cmp, K):
                     c[3] = False
                     changed = True
             if changed and matches(h1):
-                return "s2-merge:dagger-ignored"
+                return "s2-merge-dagger-ignored"
         # H2: every dagger is lost
         h2 = copy.deepcopy(spec)
         for c in h2["cmds"]:
@@ -815,6 +812,44 @@ def conform_tdm(ccmds, layout_cmds, gp, fixed_names):
     return bad
 
 
+_VARIANT = {}
+
+
+def borealis_variant():
+    """Which of the two modelled variants of Borealis.update_params / Borealis.compile the implementation shows
+    (decided by behaviour on two fixed inputs, once per run): 'partial' = a user-set loop is still adjusted for the
+    correction of the previous loop (fix-borealis-partial-user-offsets); 'trunc' = appended loop offsets get a
+    _user_offsets entry (fix-borealis-truncated-program)."""
+    if not _VARIANT:
+        T = 4
+        base = {"args": [[0.5] * T, [0.1] * T, [0.7] * T, [0.1] * T, [0.7] * T, [0.1] * T, [0.7] * T],
+                "loop_phases": [0.3, 0.1, 0.2], "mut": None}
+        try:
+            new = impl_update_params(dict(base, offsets=[None, 0.1, None]))
+            _VARIANT["partial"] = any(abs(a - 0.1) > 1e-12 for a in new[1])
+        except Exception:
+            _VARIANT["partial"] = False
+        kind, res, uo = compile_borealis(dict(base, offsets=[None, None, None], mut="no-measure"))
+        _VARIANT["trunc"] = (uo is not None and len(uo) == 3)
+    return _VARIANT
+
+
+def expected_pre(case, fx):
+    """per loop: None if the loop is left untouched, else the list of uncorrected phases  phi + corr_loop - corr_prev"""
+    T = len(case["args"][0])
+    out = []
+    corr_prev = [0.0] * T
+    for loop in range(3):
+        user = case["offsets"][loop] is not None
+        if user and (not fx or not any(corr_prev)):
+            out.append(None)
+            continue
+        corr = [0.0] * T if user else [case["loop_phases"][loop] * int(j / BOREALIS_DELAYS[loop]) for j in range(T)]
+        out.append([a + corr[j] - corr_prev[j] for j, a in enumerate(case["args"][1 + 2 * loop])])
+        corr_prev = corr
+    return out
+
+
 def check_borealis_case(ctx, case, K):
     data = {"family": "borealis", "case": case, "K": K}
     kind, res, uo = compile_borealis(case)
@@ -838,20 +873,21 @@ def check_borealis_case(ctx, case, K):
         ctx.counterexample("borealis:layout:" + k, "borealis returned a circuit that does not conform to the device: " + msg,
                            dict(data, observed=[[c[0], [p if not isinstance(p, list) else p[:4] for p in c[1]], c[2]] for c in ccmds]))
     # which phases were moved by an odd multiple of pi relative to the exact compensation?
+    var = borealis_variant()
     src_args = case["args"]
     shifted = {0: 0, 1: 0, 2: 0}
     odd = {0: [], 1: [], 2: []}
     compensated = False
-    corr_prev = [0.0] * len(src_args[0])
+    pre = expected_pre(case, var["partial"])
     for loop in range(3):
-        if case["offsets"][loop] is not None:
+        new = [float(x) for x in compiled.tdm_params[1 + 2 * loop]]
+        if pre[loop] is None:
+            if new != [float(x) for x in src_args[1 + 2 * loop]]:
+                ctx.counterexample("borealis:user-loop-changed", "loop %d has a user-set offset and nothing to undo, but its phases were changed" % loop, data)
             continue
-        corr = [case["loop_phases"][loop] * int(j / BOREALIS_DELAYS[loop]) for j in range(len(src_args[0]))]
-        new = compiled.tdm_params[1 + 2 * loop]
-        for j, (a, b) in enumerate(zip(src_args[1 + 2 * loop], new)):
-            want = a + corr[j] - corr_prev[j]
+        for j, (a, want, b) in enumerate(zip(src_args[1 + 2 * loop], pre[loop], new)):
             k = (b - want) / PI
-            if abs(corr[j] - corr_prev[j]) > 1e-12:
+            if abs(want - a) > 1e-12:
                 compensated = True
             if abs(k - round(k)) > 1e-6:
                 ctx.counterexample("borealis:phase-not-congruent", "loop %d bin %d: compensated phase %r is not congruent "
@@ -859,7 +895,6 @@ def check_borealis_case(ctx, case, K):
             elif int(round(k)) % 2 != 0:
                 shifted[loop] += 1
                 odd[loop].append(j)
-        corr_prev = corr
     # same experiment (a source that stops before its measurement is not a complete experiment: nothing to compare)
     if case.get("mut") in ("no-measure", "no-last-bs"):
         return "ok", compensated
@@ -887,7 +922,7 @@ def check_borealis_case(ctx, case, K):
             what = ("borealis moved %d/%d/%d phase arguments of loops 0/1/2 by an odd multiple of pi to fit the modulator range; "
                     "the compiled program has different photon statistics (max Fock-probability difference %.3g)"
                     % (shifted[0], shifted[1], shifted[2], dev_))
-        elif partial:
+        elif partial and not var["partial"]:
             sig = "borealis:partial-user-offsets"
             what = ("with loop offsets given by the user for some loops only (%r), the phases of the user-set loops are not adjusted for the "
                     "compensation applied to the previous loop; photon statistics change (max Fock-probability difference %.3g)"
@@ -1314,11 +1349,11 @@ def gen_s2_input(rng):
         phi = rng.choice([0.0, 0.0, 0.0, 0.3])
         for _ in range(m):
             r = rng.choice([0.0, 0.25, 0.5, 1.0, round(rng.uniform(-1, 1), 3)])
-            cmds.append([i, i + N, r, phi if rng.random() < 0.9 else phi + 0.1])
+            cmds.append([i, i + N, r, phi if rng.random() < 0.9 else phi + 0.1, rng.random() < 0.2])
     if rng.random() < 0.08 and N >= 2:
-        cmds.append([0, 1, 0.3, 0.0])
+        cmds.append([0, 1, 0.3, 0.0, False])
     if rng.random() < 0.05 and N >= 2:
-        cmds.append([N, 0, 0.3, 0.0])
+        cmds.append([N, 0, 0.3, 0.0, False])
     rng.shuffle(cmds)
     return {"N": N, "s2": cmds}
 
@@ -1328,8 +1363,9 @@ def impl_s2(inp):
     N = inp["N"]
     prog = sf.Program(2 * N)
     with prog.context as q:
-        for i, j, r, phi in inp["s2"]:
-            ops.S2gate(r, phi) | (q[i], q[j])
+        for c in inp["s2"]:
+            i, j, r, phi = c[:4]
+            (ops.S2gate(r, phi).H if (len(c) > 4 and c[4]) else ops.S2gate(r, phi)) | (q[i], q[j])
         ops.MeasureFock() | q
     captured = {}
     orig = xunitary_mod.group_operations
@@ -1337,13 +1373,13 @@ def impl_s2(inp):
     def patched(seq, pred):
         A, B, C = orig(seq, pred)
         if any(isinstance(c.op, ops.S2gate) for c in B) and not any(isinstance(c.op, ops.MeasureFock) for c in B):
-            captured["B"] = [[c.reg[0].ind, c.reg[1].ind, float(c.op.p[0]), float(c.op.p[1])] for c in B]
+            captured["B"] = [[c.reg[0].ind, c.reg[1].ind, float(c.op.p[0]), float(c.op.p[1]), bool(c.op.dagger)] for c in B]
         return A, B, C
     xunitary_mod.group_operations = patched
     try:
         reset_compilers()
         comp = prog.compile(compiler="Xunitary", warn_connected=False)
-        out = [[c.reg[0].ind, c.reg[1].ind, float(c.op.p[0]), float(c.op.p[1])] for c in comp.circuit if isinstance(c.op, ops.S2gate)]
+        out = [[c.reg[0].ind, c.reg[1].ind, float(c.op.p[0]), float(c.op.p[1]), bool(c.op.dagger)] for c in comp.circuit if isinstance(c.op, ops.S2gate)]
         res = ["Ok", out]
     except CircuitError as e:
         s = str(e)
@@ -1361,7 +1397,7 @@ def impl_s2(inp):
 
 
 def s2_terms(B):
-    return coq.coq_list(["mkS2 %d %d %s %s" % (c[0], c[1], cf(c[2]), cf(c[3])) for c in B])
+    return coq.coq_list(["mkS2 %d %d %s %s %s" % (c[0], c[1], cf(c[2]), cf(c[3]), coq.coq_bool(c[4])) for c in B])
 
 
 def corr_s2(ctx, inputs, tag):
@@ -1369,11 +1405,11 @@ def corr_s2(ctx, inputs, tag):
     for inp in inputs:
         res, B, miss = impl_s2(inp)
         rows.append((inp, res, B, miss))
-        items.append("s2_stage float 0%%float PrimFloat.add (fun a b => negb (PrimFloat.eqb a b)) %d %s %s" % (inp["N"], coq.coq_list(miss), s2_terms(B)))
+        items.append("s2_stage float 0%%float PrimFloat.add PrimFloat.opp (fun a b => negb (PrimFloat.eqb a b)) %d %s %s" % (inp["N"], coq.coq_list(miss), s2_terms(B)))
         keys = [(c[0], c[1]) for c in inp["s2"]]
         dup_items.append("list_duplicates %s" % coq.coq_list(["(%d, %d)" % k for k in keys]))
         dup_impl.append([[list(k), locs] for k, locs in xunitary_mod.list_duplicates(keys)])
-    text = FLOAT_HDR + ("Eval vm_compute in map (fun r => match r with Ok l => (0, map (fun c => (mi c, mj c, sr c, sphi c)) l) | CircuitErr c => (c, []) | IndexErr => (100, []) end) %s.\n"
+    text = FLOAT_HDR + ("Eval vm_compute in map (fun r => match r with Ok l => (0, map (fun c => (mi c, mj c, sr c, sphi c, sdag c)) l) | CircuitErr c => (c, []) | IndexErr => (100, []) end) %s.\n"
                         "Eval vm_compute in %s.\n") % (coq.coq_list(items).replace("%%", "%"), coq.coq_list(dup_items))
     ok, vals, raw = coq_eval_tmp(ctx, "corr_s2_%s_%d" % (tag, os.getpid()), text)
     if not ok:
@@ -1382,7 +1418,7 @@ def corr_s2(ctx, inputs, tag):
     for (inp, res, B, miss), mv, dm, di in zip(rows, vals[0], vals[1], dup_impl):
         ctx.traces += 1
         if mv[0] == 0:
-            m = ["Ok", [[c[0], c[1], float(c[2]), float(c[3])] for c in mv[1]]]
+            m = ["Ok", [[c[0], c[1], float(c[2]), float(c[3]), bool(c[4])] for c in mv[1]]]
         elif mv[0] == 100:
             m = ["IndexErr"]
         else:
@@ -1392,7 +1428,7 @@ def corr_s2(ctx, inputs, tag):
         dmj = [[[a, b], list(l)] for a, b, l in dm]
         if dmj != di:
             ctx.disagreement("corr:list_duplicates", "model %r vs implementation %r" % (dmj, di), {"family": "corr", "model": "s2", "input": inp})
-        same = (m[0] == res[0]) and (m[0] != "Ok" or (len(m[1]) == len(res[1]) and all(a[:2] == b[:2] and a[2] == b[2] and a[3] == b[3] for a, b in zip(m[1], res[1])))) \
+        same = (m[0] == res[0]) and (m[0] != "Ok" or (len(m[1]) == len(res[1]) and all(a[:2] == b[:2] and a[2] == b[2] and a[3] == b[3] and a[4] == b[4] for a, b in zip(m[1], res[1])))) \
             and (m[0] != "CircuitErr" or m[1] == res[1])
         data = {"family": "corr", "model": "s2", "input": inp, "impl": res, "coq": m, "B": B, "miss": miss}
         # the property's predicate, independent of the model
@@ -1404,12 +1440,13 @@ def corr_s2(ctx, inputs, tag):
 
 
 def s2_predicate(inp, res):
-    """expected: valid pairs -> one S2gate per pair with summed r (or CircuitError on differing phases)"""
+    """expected: valid pairs -> one S2gate per pair: S2gate(0,0) / the source gate itself / the undaggered gate with the
+    signed sum of the source r's (or CircuitError on differing phases); never another exception"""
     N = inp["N"]
-    valid = all(j == i + N and i < N for i, j, _, _ in inp["s2"])
+    valid = all(c[1] == c[0] + N and c[0] < N for c in inp["s2"])
     groups = {}
-    for i, j, r, phi in inp["s2"]:
-        groups.setdefault(i, []).append((r, phi))
+    for c in inp["s2"]:
+        groups.setdefault(c[0], []).append(c)
     ndup = sum(1 for g in groups.values() if len(g) >= 2)
     if res[0] == "IndexErr":
         return ("xunitary:s2-merge:IndexError", "Xunitary raises IndexError (pop index out of range) when merging repeated S2gates on %d pairs" % ndup)
@@ -1418,19 +1455,24 @@ def s2_predicate(inp, res):
     if not valid:
         return ("xunitary:s2-wrong-pair-accepted", "Xunitary accepted S2gates on a pair that is not (m, m+N)")
     got = {}
-    for i, j, r, phi in res[1]:
-        got.setdefault((i, j), []).append((r, phi))
+    for c in res[1]:
+        got.setdefault((c[0], c[1]), []).append(c)
     for i in range(N):
-        want_r = sum(r for r, _ in groups.get(i, []))
+        src = groups.get(i, [])
         g = got.get((i, i + N), [])
-        if len(g) != 1 or abs(g[0][0] - want_r) > 1e-9:
-            # the recorded defect needs repeated squeezers on two or more pairs; anything else is a different failure
-            return ("xunitary:s2-merge:squeezer-lost" if ndup >= 2 else "xunitary:s2-stage:wrong-squeezers",
-                    "Xunitary's S2gate stage (repeated S2gates on %d pairs) returns %r for pair (%d,%d); "
-                    "expected a single S2gate with r = %r" % (ndup, g, i, i + N, want_r))
+        ok = len(g) == 1
+        if ok and len(src) == 0:
+            ok = g[0][2] == 0 and not g[0][4]
+        elif ok and len(src) == 1:
+            ok = g[0][2] == src[0][2] and g[0][3] == src[0][3] and g[0][4] == bool(src[0][4])
+        elif ok:
+            want_r = sum(-c[2] if c[4] else c[2] for c in src)
+            ok = abs(g[0][2] - want_r) <= 1e-9 and not g[0][4]
+        if not ok:
+            return ("xunitary:s2-stage:wrong-squeezers", "Xunitary's S2gate stage (repeated S2gates on %d pairs) returns %r for pair (%d,%d); "
+                    "source squeezers of that pair: %r" % (ndup, g, i, i + N, src))
     if len(res[1]) != N:
-        return ("xunitary:s2-merge:squeezer-lost" if ndup >= 2 else "xunitary:s2-stage:wrong-squeezers",
-                "Xunitary returns %d S2gates for %d pairs" % (len(res[1]), N))
+        return ("xunitary:s2-stage:wrong-squeezers", "Xunitary returns %d S2gates for %d pairs" % (len(res[1]), N))
     return None
 
 
@@ -1444,6 +1486,8 @@ def qlit(x):
 def corr_borealis(ctx, inputs, tag):
     """inputs: borealis cases (no mutation); compares update_params output and the inserted sequence / _user_offsets"""
     rows, items, ins_items = [], [], []
+    var = borealis_variant()
+    ctx.extra["borealis_variant"] = dict(var)
     lay = borealis_layout_cmds()
     tid = {"Sgate": 0, "Rgate": 1, "BSgate": 2, "MeasureFock": 3}
     for case in inputs:
@@ -1454,15 +1498,18 @@ def corr_borealis(ctx, inputs, tag):
         for i in range(3):
             loops.append("mkLoop %s %d %s %s" % (qlit(case["loop_phases"][i]), BOREALIS_DELAYS[i], coq.coq_bool(case["offsets"][i] is not None),
                                                 coq.coq_list([qlit(x) for x in case["args"][1 + 2 * i]])))
-        items.append("update_params %s %s" % (qlit(PI), coq.coq_list(loops)))
+        items.append("update_params %s %s %s" % (coq.coq_bool(var["partial"]), qlit(PI), coq.coq_list(loops)))
         # insertion: layout commands (tags 100+) vs the user's sequence (tags 0..)
-        circ = ["mkB %d %s %s %d" % (tid[c[0]], coq.coq_list(sorted(c[2])), coq.coq_bool(c[0] == "Rgate" and "loop" in str(c[1][0])), 100 + k) for k, c in enumerate(lay)]
+        def is_off(c):
+            return c[0] == "Rgate" and "loop" in str(c[1][0])
+        circ = ["mkB %d %s %s %d %s" % (tid[c[0]], coq.coq_list(sorted(c[2])), coq.coq_bool(is_off(c)), 100 + k,
+                                        coq.coq_bool(not is_off(c) and any(isinstance(x, str) for x in c[1]))) for k, c in enumerate(lay)]
         try:
             prog = borealis_program(case)
-            useq = ["mkB %d %s false %d" % (tid.get(c.op.__class__.__name__, 9), coq.coq_list(sorted(r.ind for r in c.reg)), k) for k, c in enumerate(prog.circuit)]
+            useq = ["mkB %d %s false %d false" % (tid.get(c.op.__class__.__name__, 9), coq.coq_list(sorted(r.ind for r in c.reg)), k) for k, c in enumerate(prog.circuit)]
         except Exception:
             useq = []
-        ins_items.append("insert_offsets %s %s" % (coq.coq_list(circ), coq.coq_list(useq)))
+        ins_items.append("insert_offsets %s %s %s" % (coq.coq_bool(var["trunc"]), coq.coq_list(circ), coq.coq_list(useq)))
     text = FLOAT_HDR + ("Eval vm_compute in map (map (map (fun q => let r := Qred q in (Qnum r, Zpos (Qden r))))) %s.\n"
                         "Eval vm_compute in map (fun r => match r with Some (out, uo) => (true, map b_tag out, uo) | None => (false, [], []) end) %s.\n"
                         ) % (coq.coq_list(items), coq.coq_list(ins_items))
@@ -1527,12 +1574,10 @@ def impl_update_params(case):
 
 def near_boundary(case, loop, j):
     """the uncorrected phase is within rounding of a decision boundary (pi, +-pi/2) -> either side is fine"""
-    corr_prev = 0.0
-    for l in range(loop):
-        if case["offsets"][l] is None:
-            corr_prev = case["loop_phases"][l] * int(j / BOREALIS_DELAYS[l])
-    x = case["args"][1 + 2 * loop][j] + case["loop_phases"][loop] * int(j / BOREALIS_DELAYS[loop]) - corr_prev
-    m = x % (2 * PI)
+    pre = expected_pre(case, borealis_variant()["partial"])[loop]
+    if pre is None:
+        return False
+    m = pre[j] % (2 * PI)
     return min(abs(m - PI), abs(m - PI / 2), abs(m - 3 * PI / 2), abs(m), abs(m - 2 * PI)) < 1e-9
 
 
